@@ -58,3 +58,54 @@ def install_set_string(sink):
     cls._generate_set_string = icontract.ensure(set_string_post)(orig)
     cls._vf_set_string = True
     cls._vf_sink_set_string = holder
+
+
+def install_condition(sink):
+    """CodegenCtx._generate_condition_for_transition: the byte set satisfying the emitted C condition equals on_values minus End."""
+    import icontract
+    m = nm.nmfu()
+    cls = m.CodegenCtx
+    if getattr(cls, "_vf_cond", False):
+        cls._vf_sink_cond[0] = sink
+        return
+    holder = [sink]
+    orig = cls._generate_condition_for_transition
+    End, Else = m.DFTransition.End, m.DFTransition.Else
+
+    def condition_post(self, transition, result):
+        s = holder[0]
+        s.evals += 1
+        want = set()
+        for v in transition.on_values:
+            if v is End or v is Else:
+                continue
+            want.add(ord(v))
+        got = set()
+        text = re.sub(r"/\*.*?\*/", "", result)
+        ok = True
+        if text.strip():
+            for term in text.split("||"):
+                term = term.strip()
+                mm = re.fullmatch(r"inval == (\d+)", term)
+                if mm:
+                    got.add(int(mm.group(1)))
+                    continue
+                mm = re.fullmatch(r"\((\d+) <= inval && inval <= (\d+)\s*\)", term)
+                if mm:
+                    got |= set(range(int(mm.group(1)), int(mm.group(2)) + 1))
+                    continue
+                ok = False
+        got = {b for b in got if b < 256}
+        want256 = {b for b in want if b < 256}
+        if not ok:
+            s.failures.append({"why": "unrecognised-condition", "emitted": result})
+        elif got != want256:
+            s.failures.append({"why": "condition-set-differs", "emitted": result[:400], "missing": sorted(want256 - got)[:20], "extra": sorted(got - want256)[:20],
+                               "on_values": sorted(want)[:40], "range_collapsed": "<=" in result})
+        elif "<=" in text:
+            s.ranges = getattr(s, "ranges", 0) + 1
+        return True
+
+    cls._generate_condition_for_transition = icontract.ensure(condition_post)(orig)
+    cls._vf_cond = True
+    cls._vf_sink_cond = holder
